@@ -145,6 +145,12 @@ Print Assumptions conv_int_roundtrip.
 Theorem conv_int_text : forall z nl, int_text_ok z = true -> parse_string (VInt z) nl = Ok (VStr (dec_text z)).
 Proof. exact conv_int_text_lemma. Qed.
 Print Assumptions conv_int_text.
+(* the same in terms of magnitude: every integer below 10^4300 in absolute value (int_text_ok_small: such a number has at
+   most 4300 digits) *)
+Theorem conv_int_below_limit : forall z nl, (Z.abs z < 10 ^ 4300)%Z ->
+  parse_string (VInt z) nl = Ok (VStr (dec_text z)) /\ parse_int (VStr (dec_text z)) nl = Ok (VInt z).
+Proof. exact conv_int_below_limit_lemma. Qed.
+Print Assumptions conv_int_below_limit.
 Theorem conv_int_there_and_back : forall z nl, int_text_ok z = true ->
   bind (parse_string (VInt z) nl) (fun t => parse_int t nl) = Ok (VInt z).
 Proof. exact conv_int_there_and_back_lemma. Qed.
